@@ -563,3 +563,126 @@ func (ex *Exec) forkLookup(s *astate, fr *aframe, x *ssa.Lookup) []*astate {
 	}
 	return out
 }
+
+// EvalBits folds an abstract integer to a number under an assignment of its leaf sources (the
+// named inputs that are not themselves arithmetic over other sources). It is constant folding
+// inside the checker's own domain: the rules use it to tell two different-looking expressions
+// apart by a witness. Unsigned arithmetic at the width of the operands; ok is false when the
+// value has bits the domain cannot name (Mix, XOR terms) or an operator it does not fold.
+func EvalBits(b BitVec, leaf func(src string) (uint64, bool)) (uint64, bool) {
+	return evalBits(b, leaf, 0)
+}
+
+func evalBits(b BitVec, leaf func(src string) (uint64, bool), depth int) (uint64, bool) {
+	if depth > 40 {
+		return 0, false
+	}
+	var out uint64
+	memo := map[string]uint64{}
+	for i, x := range b {
+		switch x.Kind {
+		case BZero:
+		case BOne:
+			out |= 1 << uint(i)
+		case BSrc:
+			if x.More != "" {
+				return 0, false
+			}
+			v, have := memo[x.Src]
+			if !have {
+				var ok bool
+				v, ok = evalSrc(x.Src, leaf, depth+1)
+				if !ok {
+					return 0, false
+				}
+				memo[x.Src] = v
+			}
+			bit := (v >> uint(x.Idx)) & 1
+			if x.Neg {
+				bit ^= 1
+			}
+			out |= bit << uint(i)
+		default:
+			return 0, false
+		}
+	}
+	return out, true
+}
+
+func evalSrc(src string, leaf func(src string) (uint64, bool), depth int) (uint64, bool) {
+	// a field of a source: "name<hi:lo>"
+	if strings.HasSuffix(src, ">") {
+		if i := strings.LastIndex(src, "<"); i > 0 {
+			var hi, lo int
+			if n, _ := fmtSscanf(src[i:], &hi, &lo); n == 2 {
+				v, ok := evalSrc(src[:i], leaf, depth+1)
+				if !ok {
+					return 0, false
+				}
+				return (v >> uint(lo)) & (1<<uint(hi-lo+1) - 1), true
+			}
+		}
+	}
+	d, has := opaqueDefs[src]
+	if !has {
+		return leaf(src)
+	}
+	l, okL := evalBits(d.l, leaf, depth)
+	r, okR := evalBits(d.r, leaf, depth)
+	if !okL || !okR {
+		return 0, false
+	}
+	w := len(d.l)
+	mask := uint64(math.MaxUint64)
+	if w < 64 {
+		mask = 1<<uint(w) - 1
+	}
+	switch d.op {
+	case token.ADD:
+		return (l + r) & mask, true
+	case token.SUB:
+		return (l - r) & mask, true
+	case token.MUL:
+		return (l * r) & mask, true
+	case token.QUO:
+		if r == 0 {
+			return 0, false
+		}
+		return l / r, true
+	case token.REM:
+		if r == 0 {
+			return 0, false
+		}
+		return l % r, true
+	}
+	return 0, false
+}
+
+func fmtSscanf(s string, hi, lo *int) (int, error) {
+	// "<hi:lo>"
+	s = strings.TrimSuffix(strings.TrimPrefix(s, "<"), ">")
+	parts := strings.Split(s, ":")
+	if len(parts) != 2 {
+		return 0, nil
+	}
+	n := 0
+	for i, p := range parts {
+		v := 0
+		if p == "" {
+			return n, nil
+		}
+		for _, c := range p {
+			if c < '0' || c > '9' {
+				return n, nil
+			}
+			v = v*10 + int(c-'0')
+		}
+		if i == 0 {
+			*hi = v
+		} else {
+			*lo = v
+		}
+		n++
+	}
+	return n, nil
+}
